@@ -17,6 +17,7 @@
 #include "bloch/runtime/qasm_simulator.hpp"
 #include "bloch/runtime/runtime_evaluator.hpp"
 #include "bloch/update/update_manager.hpp"
+#include <clocale>
 #include "sim/core/core.hpp"
 #include "sim/gen/qhistory.hpp"
 #include "sim/models/statevec.hpp"
@@ -891,9 +892,35 @@ ProgOutcome runProgram(const qh::Plan& plan, const std::string& property, uint64
     return R;
 }
 
+// ---- environment fault for CLI runs: a locale whose decimal point is ',' -----------------------------------
+// The interpreter never calls setlocale, so the variables have no effect on the unchanged tree; code that adopts
+// the environment's locale prints and parses numbers with it. The harness restores the "C" locale after the call.
+bool commaLocaleAvailable() {
+    static int avail = -1;
+    if (avail < 0) avail = access((std::string(VERIF_ROOT) + "/build/locale/xx_XX/LC_NUMERIC").c_str(), R_OK) == 0 ? 1 : 0;
+    return avail == 1;
+}
+struct LocaleEnv {
+    bool on;
+    explicit LocaleEnv(bool enable) : on(enable && commaLocaleAvailable()) {
+        if (!on) return;
+        setenv("LOCPATH", (std::string(VERIF_ROOT) + "/build/locale").c_str(), 1);
+        setenv("LC_NUMERIC", "xx_XX", 1);
+        unsetenv("LC_ALL");
+        unsetenv("LANG");
+    }
+    ~LocaleEnv() {
+        if (!on) return;
+        unsetenv("LOCPATH");
+        unsetenv("LC_NUMERIC");
+        setlocale(LC_ALL, "C");
+    }
+};
+
 // ---- CLI clause of C05: the .qasm file equals what --emit-qasm prints ---------------------------------
 std::string g_scratch;
 bool cliQasmFileCheckOnce(const qh::Plan& plan, int shots, std::string& detail, bool keepOldFile, int spelling);
+bool g_cliCommaLocale = false;   // the next CLI-clause runs happen under the comma-decimal locale environment
 // The file clause, including a stale file: when the plan owns no objects, the program is first run in full and
 // then truncated before its last gate with the same scripted draws, so that the second run's text is a strict
 // prefix of the file the first run left behind.
@@ -950,6 +977,7 @@ bool cliQasmFileCheckOnce(const qh::Plan& plan, int shots, std::string& detail, 
     std::string out;
     int rc;
     {
+        LocaleEnv le(g_cliCommaLocale);
         CoutCapture cap;
         gcs::beginRun(s);
         rc = cli::run((int)av.size(), av.data(), cli::Context{});
@@ -1092,6 +1120,7 @@ qh::GenOptions genOptionsFor(const std::string& property, sim::Rng& knob) {
     if (property == "C02") { go.boundaryDrawProb = 0.3; }
     go.tracked = knob.chance(0.3);
     if (property == "C04") go.aliasProb = knob.chance(0.3) ? 0.12 : 0.0;
+    if (property == "C05") go.hugeLoopProb = knob.chance(0.00006) ? 0.5 : 0.0;
     if (property == "C03" || property == "C05" || property == "C06") go.nonFiniteAngleProb = knob.chance(0.3) ? 0.01 : 0.0;
     if (property == "C03") { go.aliasProb = knob.chance(0.1) ? 0.12 : 0.0; go.cycleProb = knob.chance(0.4) ? 0.1 : 0.0; go.portProb = knob.chance(0.25) ? 0.1 : 0.0; }
     if (property == "C05" || property == "C04") go.cycleProb = knob.chance(0.15) ? 0.08 : 0.0;
@@ -1227,6 +1256,7 @@ void runOne(const sim::Options& opt, uint64_t run, sim::RunReport& rep) {
         if (f.owner != property) rep.count("prog.foreign_findings");
     for (auto& o : plan.ops) rep.count(std::string("op.") + qh::kindName(o.kind));
     for (auto& o : plan.ops) if (o.kind == qh::GATE && o.loop >= 2) rep.count("op.gate_in_for_loop");
+    for (auto& o : plan.ops) if (o.kind == qh::GATE && o.loop > 1000) rep.count("op.gate_in_loop_of_more_than_2^20_iterations");
     for (auto& o : plan.ops) if ((o.kind == qh::GATE || o.kind == qh::IFGATE) && o.gate >= 4 && qh::angleComputed(o)) rep.count("op.rotation_by_non_finite_angle");
     if (cls == "harness_rejected") {
         rep.count("harness.rejected_program");
@@ -1267,6 +1297,8 @@ void runOne(const sim::Options& opt, uint64_t run, sim::RunReport& rep) {
         rep.count("cli.qasm_file_checks");
         int shots = (run % 16 == 1) ? 0 : 2;
         int spelling = (int)((run / 24) % 3);
+        g_cliCommaLocale = (run / 72) % 2 == 1;
+        if (g_cliCommaLocale && commaLocaleAvailable()) rep.count("cli.run_under_comma_decimal_locale");
         rep.count(spelling == 1 ? "cli.source_named_through_symlink_dotdot" : spelling == 2 ? "cli.source_named_relative_with_dotdot" : "cli.source_named_absolute");
         if (!cliQasmFileCheck(plan, shots, d, spelling)) { cls = "qasm_file_differs_from_emit_qasm"; detail = d; }
     }
@@ -1286,6 +1318,7 @@ void runOne(const sim::Options& opt, uint64_t run, sim::RunReport& rep) {
     if (cls.empty()) return;
     // shrink: drop ops (keeping the plan well-formed is the interpreter's job: invalid candidates are rejected by a dry check)
     int budget = 200;
+    for (auto& o : plan.ops) if (o.loop > 1000) budget = 12;   // every re-execution of a loop of 2^20 iterations takes seconds
     bool cliCls = cls == "qasm_file_differs_from_emit_qasm";
     auto valid = [&](const std::vector<qh::Op>& ops) {
         // declarations are numbered in op order: dropping a declaration renumbers later ones, so only
@@ -1345,7 +1378,7 @@ void runOne(const sim::Options& opt, uint64_t run, sim::RunReport& rep) {
     v.detail = d1.empty() ? detail : d1;
     v.reproducible = c1 == cls && c2 == cls && d1 == d2;
     v.plan = planJson(false, {}, mp);
-    v.plan.set("rng_seed", Json((unsigned long long)opt.seed)).set("rng_run", Json((unsigned long long)run)).set("cli_shots", (run % 16 == 1) ? 0 : 2).set("cli_spelling", (int)((run / 24) % 3));
+    v.plan.set("rng_seed", Json((unsigned long long)opt.seed)).set("rng_run", Json((unsigned long long)run)).set("cli_shots", (run % 16 == 1) ? 0 : 2).set("cli_spelling", (int)((run / 24) % 3)).set("cli_comma_locale", (run / 72) % 2 == 1);
     rep.violations.push_back(std::move(v));
 }
 
@@ -1418,6 +1451,7 @@ int doReplay(const sim::Options& opt) {
         cls = progClass(p, property, seed, run, detail);
         if (cls.empty() && file.at("violation").at("class").asStr() == "qasm_file_differs_from_emit_qasm") {
             std::string d;
+            g_cliCommaLocale = pj.has("cli_comma_locale") && pj.at("cli_comma_locale").asBool();
             if (!cliQasmFileCheck(p, (int)pj.at("cli_shots").asInt(), d, pj.has("cli_spelling") ? (int)pj.at("cli_spelling").asInt() : 0)) { cls = "qasm_file_differs_from_emit_qasm"; detail = d; }
         }
     }
